@@ -4,52 +4,52 @@
   Core-only.
 -/
 
-structure Ring (α : Type) where
+structure RingBuf (α : Type) where
   zero : α            -- Go's zero value `var t T`
   buffer : List α
   begin_ : Nat
   end_ : Nat
   empty : Bool
 
-namespace Ring
+namespace RingBuf
 variable {α : Type}
 
-def new (zero : α) (size : Nat) : Ring α :=
+def new (zero : α) (size : Nat) : RingBuf α :=
   { zero := zero, buffer := List.replicate size zero, begin_ := 0, end_ := 0, empty := true }
 
-def cap (r : Ring α) : Nat := r.buffer.length
+def cap (r : RingBuf α) : Nat := r.buffer.length
 
-def nextIndex (r : Ring α) (i : Nat) : Nat := (i + 1) % r.buffer.length
+def nextIndex (r : RingBuf α) (i : Nat) : Nat := (i + 1) % r.buffer.length
 
-def isEmpty (r : Ring α) : Bool := r.empty
+def isEmpty (r : RingBuf α) : Bool := r.empty
 
-def isFull (r : Ring α) : Bool := !r.empty && (r.end_ == r.begin_)
+def isFull (r : RingBuf α) : Bool := !r.empty && (r.end_ == r.begin_)
 
 /-- `Put`: returns the new ring and the previous content of the written slot. -/
-def put (r : Ring α) (t : α) : Ring α × α :=
+def put (r : RingBuf α) (t : α) : RingBuf α × α :=
   let b := if r.isFull then r.nextIndex r.begin_ else r.begin_
   let o := r.buffer.getD r.end_ r.zero
   ({ r with buffer := r.buffer.set r.end_ t, begin_ := b, end_ := r.nextIndex r.end_, empty := false }, o)
 
 /-- `Get`: oldest element, `none` for Go's `(zero, false)`. -/
-def get (r : Ring α) : Ring α × Option α :=
+def get (r : RingBuf α) : RingBuf α × Option α :=
   if r.empty then (r, none)
   else
     let t := r.buffer.getD r.begin_ r.zero
     let b := r.nextIndex r.begin_
     ({ r with begin_ := b, empty := (b == r.end_) }, some t)
 
-def atIdx (r : Ring α) (index : Nat) : α :=
+def atIdx (r : RingBuf α) (index : Nat) : α :=
   r.buffer.getD ((r.begin_ + index) % r.buffer.length) r.zero
 
 /-- number of stored elements -/
-def count (r : Ring α) : Nat :=
+def count (r : RingBuf α) : Nat :=
   if r.empty then 0
   else if r.end_ == r.begin_ then r.buffer.length
   else (r.end_ + r.buffer.length - r.begin_) % r.buffer.length
 
 /-- abstraction: contents, oldest first -/
-def toList (r : Ring α) : List α :=
+def toList (r : RingBuf α) : List α :=
   (List.range r.count).map (fun i => r.atIdx i)
 
-end Ring
+end RingBuf
